@@ -78,7 +78,7 @@ partial def closure (st : Stage σ Int β) (R : Render σ β) (nIn nOut : Nat) (
     | [] => pure ()
     | p :: rest =>
       work := rest
-      let k := key R nIn nOut p
+      let k := key R nIn (nOut + drain.length) p
       if seen.contains k then continue
       seen := seen.insert k
       if p.panicked then
